@@ -28,7 +28,7 @@ ONE = {"A": "DA", "C": "DC", "G": "DG", "T": "DT"}
 
 
 def plan(tier, seed):
-    n = 2000 if tier == "quick" else 50000
+    n = 4000 if tier == "quick" else 50000
     return [["dna", i] for i in range(n)] + [["bad", i] for i in range(n // 12)] + [["e2e", i] for i in range(max(30, n // 200))]
 
 
